@@ -531,6 +531,11 @@ def _enforce_bounds_vector(u, du, alpha, lower_bounds, upper_bounds):
             if max_d_alpha > d_alpha:
                 d_alpha = max_d_alpha
 
+    if d_alpha > alpha:
+        # In exact arithmetic d_alpha <= alpha because the original point was valid; rounding can
+        # break that when an entry sits on its bound and its step is at the noise level.
+        d_alpha = alpha
+
     if d_alpha > 0:
         # d_alpha will not be negative because it was initialized to be 0
         # and we've only done max operations.
